@@ -7,3 +7,103 @@ try:
     REPLAYERS.update(getattr(_ring, "REPLAYERS", {}))
 except ImportError:
     _ring = None
+
+import ast
+import numpy, z3
+from pyvc import sym, barr, modeb, loopcut
+from pyvc.sym import cur, _t
+
+SEL = "pybrops/breed/prot/sel/"
+PROTOCOLS = ["SubsetSelectionProtocol", "RealSelectionProtocol", "IntegerSelectionProtocol", "BinarySelectionProtocol"]
+R = lambda x: (z3.ToReal(_t(x)) if _t(x).sort() == z3.IntSort() else _t(x))
+
+
+def _select_unit(ctx, clsname):
+    rel = SEL + clsname + ".py"
+    node = loopcut.find_def(ast.parse(loopcut.read_source(rel)), clsname + ".select")
+    cfgnames = sorted({n.id for n in ast.walk(node) if isinstance(n, ast.Name) and n.id.endswith("SelectionConfiguration")})
+    built = []
+
+    class Cfg:
+        def __init__(self, **kw):
+            self.kw = kw
+            built.append(self)
+    ov = {c: Cfg for c in cfgnames}
+    ov.update({n.id: (lambda *a: None) for n in ast.walk(node) if isinstance(n, ast.Name) and n.id.startswith("check_")})
+    f = loopcut.Extracted(rel + ":" + clsname + ".select", overrides=ov)
+
+    def body(e, shape, tag):
+        nobj, nsoln, ndecn = shape
+        del built[:]
+        tok = {k: object() for k in ("pgmat", "gmat", "ptdf", "bvmat", "gpmod")}
+        decn = numpy.arange(nsoln * ndecn).reshape(nsoln, ndecn) + 100
+        objs = barr.fresh("F", (nsoln, nobj), "float64")
+        score = barr.fresh("s", (nsoln,), "float64")
+        calls = []
+
+        class Soln:
+            soln_decn = decn
+            soln_obj = objs
+
+        class Me:
+            pass
+        me = Me()
+        me.nobj = nobj
+        me.ncross, me.nparent, me.nmating, me.nprogeny = object(), object(), object(), object()
+        w = sym.fresh_real("ndset_wt")
+        e.assume(w.t != 0)
+        me.ndset_wt = w
+        kwargs_tok = {"obj_wt": object(), "vec_wt": object()}
+        me.ndset_trans_kwargs = kwargs_tok
+
+        def trans(mat, **kw):
+            calls.append(("trans", mat, kw))
+            return score
+        me.ndset_trans = trans
+
+        def solve(kind):
+            def g(**kw):
+                calls.append((kind, kw))
+                return Soln()
+            return g
+        me.sosolve, me.mosolve = solve("sosolve"), solve("mosolve")
+        misc = {}
+        out = f(me, tok["pgmat"], tok["gmat"], tok["ptdf"], tok["bvmat"], tok["gpmod"], 3, 9, misc)
+        e.prove(tag + ":returns-the-configuration-it-built", len(built) == 1 and out is built[0])
+        kw = out.kw
+        e.prove(tag + ":cross-design-parameters-and-population-forwarded",
+                kw.get("ncross") is me.ncross and kw.get("nparent") is me.nparent and kw.get("nmating") is me.nmating
+                and kw.get("nprogeny") is me.nprogeny and kw.get("pgmat") is tok["pgmat"])
+        solver = [c for c in calls if c[0] in ("sosolve", "mosolve")]
+        e.prove(tag + ":solves-once-with-the-optimiser-for-its-objective-count",
+                len(solver) == 1 and solver[0][0] == ("sosolve" if nobj == 1 else "mosolve")
+                and all(solver[0][1].get(k) is v for k, v in tok.items()))
+        chosen = [int(v) for v in numpy.asarray(kw["xconfig_decn"]).reshape(-1)]
+        if nobj == 1:
+            e.prove(tag + ":single-objective:configuration-from-the-first-solution", chosen == [int(v) for v in decn[0]])
+        else:
+            tr = [c for c in calls if c[0] == "trans"]
+            e.prove(tag + ":transformation-applied-to-the-front-objectives-with-the-declared-kwargs",
+                    len(tr) == 1 and tr[0][1] is objs and tr[0][2] == kwargs_tok and all(tr[0][2][k] is v for k, v in kwargs_tok.items()))
+            row = [i for i in range(nsoln) if chosen == [int(v) for v in decn[i]]]
+            e.prove(tag + ":configuration-is-a-row-of-the-front", len(row) == 1)
+            if len(row) == 1:
+                ix = row[0]
+                e.prove(tag + ":chosen-row-maximises-ndset_wt*ndset_trans(front)",
+                        z3.And(*[w.t * R(score[ix]) >= w.t * R(score[i]) for i in range(nsoln)]))
+        return "ok"
+    shapes = [(1, 1, 2), (1, 3, 2), (2, 1, 2), (2, 2, 3), (2, 3, 2), (3, 3, 1)]
+    modeb.run_shapes(ctx, clsname + ".select", shapes, body)
+
+
+def _reg_select(clsname):
+    @unit(P, "B[%s.select: configuration from the solution that maximises the declared preference]" % clsname, "B", bounded=True,
+          targets=[SEL + clsname + ".py:" + clsname + ".select"],
+          note="bounded(shape): fronts of <= 3 solutions, <= 3 objectives; objective values, transformation scores and ndset_wt symbolic")
+    def u(ctx):
+        _select_unit(ctx, clsname)
+    return u
+
+
+for _c in PROTOCOLS:
+    _reg_select(_c)
